@@ -559,6 +559,30 @@ def _f70(vio):
     return kinds == {"tuple", "named"}
 
 
+@mechanism("F79-lazy-range-of-empty-record-with-bitmask")
+def _f79(vio):
+    """lazy range slice whose Form predicts ByteMaskedArray for a BitMaskedArray field of a nested *zero-length*
+    RecordArray, which RecordArray::getitem_range_nowrap returns unchanged (full-range shortcut)"""
+    from vlib import model
+    det = vio.get("detail") or {}
+    if vio.get("kind") != "lazy-outcome-differs":
+        return False
+    msg = ((det.get("lazy") or {}).get("msg") or "")
+    if "does not conform to expected form" not in msg:
+        return False
+    case = vio.get("case") or {}
+    ranged = (case.get("prefix") or {}).get("op") == "getitem_range" or \
+        any(o.get("op") in ("getitem_range", "getitem") for o in case.get("ops", []))
+    if not ranged:
+        return False
+    for d in _layouts(vio):
+        for _p, n in model.walk(d):
+            if n["c"] == "RecordArray" and n["length"] == 0 and _p:
+                if any(m["c"] == "BitMaskedArray" for _q, m in model.walk(n)):
+                    return True
+    return False
+
+
 @mechanism("F10-reduce-nonlocal")
 def _f10(vio):
     rep = _report(vio)
